@@ -15,7 +15,7 @@ import math
 import os
 import random
 
-from vh.core import MachineryError, guarded, Raised, spell_flag
+from vh.core import MachineryError, guarded, Raised, spell_flag, other_surroundings
 
 OPS = ['write', 'write_noheader', 'append', 'load_ascii', 'to_dict', 'from_dict', 'write_json', 'load_json', 'to_df', 'from_df']
 
@@ -119,6 +119,10 @@ class Runner:
         """tz: the process's local time zone during the history (catalog times are UTC whatever the zone of the machine)"""
         if tz is None:
             return self._run_history(src, hist, table)
+        if tz == 'other surroundings':
+            # not a time zone: the embedding program's decimal context / numpy print options / working directory
+            with other_surroundings(cwd=os.path.dirname(self.path)):
+                return self._run_history(src, hist, table)
         import time
         old = os.environ.get('TZ')
         os.environ['TZ'] = tz
@@ -186,7 +190,7 @@ class Runner:
         return steps
 
 
-ZONES = [None, None, 'JST-9', 'EST5EDT,M3.2.0,M11.1.0']      # local time zones the histories run under (None = as started)
+ZONES = [None, None, 'JST-9', 'EST5EDT,M3.2.0,M11.1.0', 'other surroundings']      # local time zones the histories run under (None = as started)
 
 
 def normalise(src, steps):
